@@ -106,7 +106,7 @@ class Layout:
         return {k: r.text for k, r in self.rendered.items()}
 
 
-SHAPES = ["single", "chain", "diamond", "lookup_shadow", "nested_rel", "absolute", "mixed"]
+SHAPES = ["single", "chain", "diamond", "lookup_shadow", "nested_rel", "absolute", "mixed", "reimport"]
 
 
 def make_layout(rnd: random.Random, shape=None, nmacros=None, rich=True):
@@ -131,6 +131,11 @@ def make_layout(rnd: random.Random, shape=None, nmacros=None, rich=True):
     elif shape == "nested_rel":
         fkeys = ["proj/SCRIPT/D01/main.exps", "proj/SCRIPT/common/a.exps", "proj/SCRIPT/common/deep/b.exps"]
         imports = {fkeys[0]: [("rel", "../common/a.exps")], fkeys[1]: [("rel", "./deep/b.exps")], fkeys[2]: []}
+    elif shape == "reimport":
+        # a file that has imports of its own is reached twice (directly and through another file): acyclic, must compile
+        fkeys = ["proj/SCRIPT/main.exps", "proj/SCRIPT/lib/a.exps", "proj/SCRIPT/lib/b.exps", "proj/SCRIPT/lib/base.exps"]
+        first, second = (("rel", "./lib/a.exps"), ("rel", "./lib/b.exps")) if rnd.random() < 0.5 else (("rel", "./lib/b.exps"), ("rel", "./lib/a.exps"))
+        imports = {fkeys[0]: [first, second], fkeys[1]: [("rel", "./base.exps")], fkeys[2]: [("rel", "./a.exps")], fkeys[3]: []}
     elif shape == "absolute":
         fkeys = ["proj/SCRIPT/main.exps", "elsewhere/abs/a.exps"]
         imports = {fkeys[0]: [("abs", "elsewhere/abs/a.exps")], fkeys[1]: []}
@@ -166,10 +171,11 @@ def make_layout(rnd: random.Random, shape=None, nmacros=None, rich=True):
             if file_of[i] == shadow:
                 file_of[i] = fkeys[1]
     specs = {}
+    shared_names = rnd.random() < 0.5
     for i in reversed(order):
         name = f"mac_{i}"
         nv = rnd.randint(0, 3)
-        vars_ = [f"$p{i}_{k}" for k in range(nv)]
+        vars_ = [f"$q{k}" for k in rnd.sample(range(4), nv)] if shared_names else [f"$p{i}_{k}" for k in range(nv)]
         callable_ = [specs[j] for j in range(i + 1, n) if j in specs and file_of[j] in vis[file_of[i]]]
         g.c.macros = callable_
         g.c.macro_p = 0.3 if callable_ else 0.0
